@@ -1062,8 +1062,9 @@ def judge_panic_sites(crate, allowed, sites):
                 continue
             # renamed private function: a reviewed function of the same parent is gone, with the same number of sites
             parent = base(fn).rsplit("::", 1)[0]
-            gone = [b_ for b_ in deficit if b_[1] == kind and b_[0] not in existing and b_[0].rsplit("::", 1)[0] == parent and
-                    deficit[b_] >= n and "{fn@" not in b_[0]]
+            callers_ = {canon_fn(crate, c_) for c_ in rev.get(base(fn), set())}
+            gone = [b_ for b_ in deficit if b_[1] == kind and b_[0] not in existing and deficit[b_] >= n and "{fn@" not in b_[0] and
+                    (b_[0].rsplit("::", 1)[0] == parent or any(b_[0].startswith(c_ + "::") for c_ in callers_))]
             if len(gone) == 1:
                 deficit[gone[0]] -= n
                 out[key] = ("moved", "the reviewed private function %s no longer exists; %s has the same %s site(s) (renamed)" % (gone[0][0], base(fn), kind))
